@@ -48,9 +48,12 @@ void mailforward(char **recips);
 #ifndef NFLAG
 #define NFLAG 0
 #endif
+#ifndef OWNER
+#define OWNER 0                  /* 1: non-empty sender, so that the -owner files are looked up too */
+#endif
 #define DASH (DASHLEN ? "-" : "")
 #define NF 3
-#define NAMEMAX (6 + DASHLEN + EL + 7 + 1)
+#define NAMEMAX (6 + DASHLEN + EL + (OWNER ? 14 : 7) + 1)
 #define NCAND (EL + 2)
 
 /* ---------------- symbolic inputs */
@@ -127,7 +130,9 @@ static void ref_candidates(void)
   }
 }
 
-static void check_path(const char *p)
+static int owner_exists = -1, ownerdefault_exists = -1;    /* answers given to the two stat() calls */
+
+static void check_path(const char *p, int owner)
 {
   unsigned int i;
   int known = 0, dot = 0;
@@ -136,8 +141,19 @@ static void check_path(const char *p)
   for (i = 1; i < NAMEMAX; ++i) { if (!p[i]) break; if (p[i] == '.') dot = 1; }
   CHECK(i < NAMEMAX, "path fits NAMEMAX (harness sizing)");
   CHECK(!dot, "C13: no dot after the first byte of a .qmail file name (the lookup cannot climb out of the home directory)");
-  for (i = 0; i < NCAND; ++i) { if (i >= ncand) break; if (c13_streq(p, cand[i], NAMEMAX)) known = 1; }
-  CHECK(known, "C13: only the documented candidate names are looked at");
+  if (!owner) {
+    for (i = 0; i < NCAND; ++i) { if (i >= ncand) break; if (c13_streq(p, cand[i], NAMEMAX)) known = 1; }
+    CHECK(known, "C13: only the documented candidate names are looked at");
+  } else {
+    /* dot-qmail(5): .qmail-ext-owner, then .qmail-ext-owner-default; ext as in the exact candidate */
+    static const char o1[] = "-owner", o2[] = "-owner-default";
+    const char *suf = owner == 1 ? o1 : o2;
+    unsigned int n = 6 + DASHLEN + EL, q;
+    known = 1;
+    for (q = 0; q < 6 + DASHLEN + EL; ++q) if (p[q] != cand[0][q]) known = 0;
+    for (q = 0; q < 15; ++q) { if (p[n + q] != suf[q]) known = 0; if (!suf[q]) break; }
+    CHECK(known, "C13: the owner files are .qmail-ext-owner and .qmail-ext-owner-default");
+  }
   CHECK(home_statted, "C13: the home directory is checked before any .qmail file is looked at");
   ++nlook;
 }
@@ -154,14 +170,25 @@ int vf_stat(const char *path, struct stat *st)
     st->st_mode = S_IFDIR | (home_mode & 07777);
     return 0;
   }
-  CHECK(0, "no stat of anything but the home directory with an empty sender");
-  errno = ENOENT; return -1;
+  CHECK(OWNER, "no stat of anything but the home directory with an empty sender");
+  CHECK(owner_exists == -1 || (owner_exists == 1 && ownerdefault_exists == -1), "C13: -owner is looked up once, -owner-default only if it exists");
+  if (owner_exists == -1) {
+    check_path(path, 1);
+    owner_exists = lookup(path) >= 0;
+    if (!owner_exists) { errno = ENOENT; return -1; }
+  } else {
+    check_path(path, 2);
+    ownerdefault_exists = lookup(path) >= 0;
+    if (!ownerdefault_exists) { errno = ENOENT; return -1; }
+  }
+  st->st_mode = S_IFREG | 0600;
+  return 0;
 }
 
 int vf_open(const char *path, int flags, ...)
 {
   int k;
-  check_path(path);
+  check_path(path, 0);
   CHECK((flags & O_ACCMODE) == O_RDONLY, ".qmail files are opened for reading");
   k = lookup(path);
   if (k < 0) { errno = ENOENT; return -1; }
@@ -194,6 +221,13 @@ int slurpclose(int fd, stralloc *sa, int bufsize)
     if (ncand >= 3 && c13_streq(fname[sel], cand[1], NAMEMAX)) WITNESS("longest_default_used");
     if (ncand >= 3 && c13_streq(fname[sel], cand[ncand - 1], NAMEMAX)) WITNESS("shortest_default_used");
     if (fperm[sel] & 0100) WITNESS("executable_qmail");
+#if OWNER
+    /* dot-qmail(5): envelope sender of forwarded copies */
+    CHECK(owner_exists != -1, "C13: the -owner file is looked up for a non-bounce sender");
+    if (owner_exists == 1 && ownerdefault_exists == 1) { CHECK(c13_streq(ueo.s, "u-x-owner-@h-@[]", 24), "C13: -owner and -owner-default exist: VERP sender local-owner-@domain-@[]"); WITNESS("verp_sender"); }
+    else if (owner_exists == 1) { CHECK(c13_streq(ueo.s, "u-x-owner@h", 24), "C13: -owner exists: sender local-owner@domain"); WITNESS("owner_sender"); }
+    else { CHECK(c13_streq(ueo.s, "s@h", 24), "C13: no -owner file: the original envelope sender is kept"); WITNESS("sender_kept"); }
+#endif
     if (EL >= 1 && ext_in[0] == '.') WITNESS("dot_in_ext");
     if (EL >= 1 && ext_in[0] == 'A') WITNESS("upper_case_in_ext");
     if (EL >= 1 && ext_in[0] == '/') WITNESS("slash_in_ext");
@@ -210,7 +244,7 @@ void mailfile(char *fn)
   CHECK(sel < 0, "C13: an existing control file is read, not skipped");
   CHECK(DASHLEN == 0, "C13: no control file and a non-empty dash: bounce, no delivery");
   CHECK(c13_streq(fn, "./Mailbox", 16), "C13: no .qmail for the plain user address: defaultdelivery");
-  CHECK(nlook == ncand, "C13: every candidate was tried before falling back");
+  CHECK(OWNER ? nlook >= ncand : nlook == ncand, "C13: every candidate was tried before falling back");
   WITNESS("no_file_default_delivery");
   PATH_END();
 }
@@ -265,7 +299,7 @@ void vmain(void)
   argv[a++] = "-n";
 #endif
   argv[a++] = "u"; argv[a++] = "/h"; argv[a++] = "u-x"; argv[a++] = DASH; argv[a++] = ext_in;
-  argv[a++] = "h"; argv[a++] = ""; argv[a++] = "./Mailbox"; argv[a] = 0;
+  argv[a++] = "h"; argv[a++] = OWNER ? "s@h" : ""; argv[a++] = "./Mailbox"; argv[a] = 0;
   local_main((int) a, argv);
   CHECK(0, "main() does not return");
 }
